@@ -22,7 +22,8 @@ def strategy(tier, unit):
     return st.fixed_dictionaries({
         "tthd": S.fl(0.5, 60.0), "eta": S.fl(-2 * math.pi, 2 * math.pi), "tilt": st.tuples(z, z, z).map(list),
         "L": S.logfl(10, 1000), "py": S.logfl(0.01, 0.5), "pz": S.logfl(0.01, 0.5),
-        "y0": S.fl(-3000, 3000), "z0": S.fl(-3000, 3000), "t": st.tuples(off, off, off).map(list), "wl": S.fl(0.1, 2.0)})
+        "y0": st.one_of(S.fl(-3000, 3000), st.integers(-3000, 3000)), "z0": st.one_of(S.fl(-3000, 3000), st.integers(0, 3000)),
+        "t": st.tuples(off, off, off).map(list), "wl": S.fl(0.1, 2.0), "intL": st.booleans()})
 
 
 def check(case, ctx):
@@ -35,6 +36,13 @@ def check(case, ctx):
         Rm = np.asarray(m.detect_tilt(tx, ty, tz), float)
         ctx.near("detect_tilt=RxRyRz", O.maxabs(Rm - R), 1e-12, "detect_tilt", "%s.detect_tilt differs from RxRyRz" % mname)
     L, py, pz, y0, z0, wl = case["L"], case["py"], case["pz"], case["y0"], case["z0"], case["wl"]
+    if case.get("intL"):
+        L = int(round(L))            # distances and beam centres are often given as whole numbers (Python ints)
+        ctx.event("integer-typed-distance")
+    # history: the previous reflection of the same grain (results still held by the caller)
+    ctx.keep("det_coor", D.det_coor(O.ro((2 * math.pi / wl) * (np.array([math.cos(0.2), 0.0, math.sin(0.2)]) - np.array([1.0, 0, 0]))), math.cos(0.2), wl, L, py, pz, y0, z0, R, 0.1, -0.2, 0.3))
+    ctx.keep("det_coor2", D.det_coor2(0.2, 0.4, L, py, pz, y0, z0, R, 0.1, -0.2, 0.3))
+    ctx.keep("detector_to_lab", D.detector_to_lab(10.0, 20.0, L, py, pz, y0, z0, R))
     t = np.array(case["t"], float) + 0.0
     v = np.array([math.cos(tth), -math.sin(tth) * math.sin(eta), math.sin(tth) * math.cos(eta)])
     Gt = O.ro((2 * math.pi / wl) * (v - np.array([1.0, 0, 0])))
